@@ -186,7 +186,9 @@ def run_case(ctx, index):
             ss |= set(E.samp_ids)
     try:
         res = ta.merge(arg, sample=smode, observation=omode, **kw)
-    except ctx.TableException as e:
+    except Exception as e:
+        if not isinstance(e, ctx.TableException) and so and ss:
+            raise
         if not so or not ss:
             ctx.count('empty_intersection_refused')
             oracles.unchanged(ta, before_a, 'C09/refused-but-modified', desc)
